@@ -21,7 +21,10 @@ from typing import Any, Dict, List, Optional
 
 VERIF = Path(__file__).resolve().parent.parent
 SPEC = VERIF / "spec"
-WORK = VERIF / ".work"
+# VERIF_SCRATCH (optional): keep work files, evidence and replays of this run apart (used by tools/matrix.py, which runs the
+# checks against scratch copies of the repository in parallel and must not overwrite the evidence of the real tree)
+_SCRATCH = os.environ.get("VERIF_SCRATCH")
+WORK = (Path(_SCRATCH) if _SCRATCH else VERIF) / ".work"
 
 JAVA_CP = "/opt/veriftools/tla/tla2tools.jar:/opt/veriftools/tla/CommunityModules-deps.jar"
 
